@@ -96,6 +96,8 @@ def check_string(case) -> Result:
 BAD_VALUES = ['Foo', 'U:Foo', 'M:Foo', 'X:Foo', 'Glycan:Foo', 'Formula:Xx2', 'Obs:abc', 'M:+x', 'Foo#g1', 'Foo|Bar', '', 'UNIMOD:999999',
               'MOD:99999', 'INFO:only', 'R:Foo', 'G:Foo', 'U:', 'Formula:Xy', 'Formula:C-',
               'Obs:', 'Obs:+-1',
+              # words and Python-only literals that int() / float() would take for numbers
+              'NAN', 'nan', 'INF', 'inf', 'Infinity', '-inf', '1_0', '1e400',
               # case variants of resolvable spellings (names, formulas and glycan names are case-sensitive)
               'acetyl', 'OXIDATION', 'phospho', 'ACETYL', 'Formula:c2h2o', 'Glycan:hexnac', 'U:acetyl', 'carbamidomethyl']
 WARM_UP = ['Acetyl', 'Oxidation', 'Phospho', 'Formula:C2H2O', 'Glycan:HexNAc', 'U:Acetyl', 'Carbamidomethyl']
